@@ -164,6 +164,8 @@ class FrameWorld(c14frame.World):
     def flush(self):
         if self.cur is not None:
             self.cur['calls'] = self.log
+            if self.cur['op'][0] == 'boot':
+                self.cur['vips_after'] = self.vips()
             self.steps.append(self.cur)
         self.cur = None
         self.log = []
@@ -270,6 +272,7 @@ class FrameWorld(c14frame.World):
                     continue
                 self.begin(op)
                 self.cur['expect'] = self.snapshot_replayable()
+                self.cur['vips_before'] = self.vips()
                 self.boot_order = None
                 self.pending = False
                 self.idle = 0
@@ -354,6 +357,15 @@ def oracle(case, obs):
         for n in replayed:
             if n not in st['expect']:
                 out.append(('svcframe:replayed-a-request-that-is-not-live', '%s: %s (live: %r)' % (where, n, st['expect'])))
+        # C14F_startup_frees_only_gone_or_unreplayable on the real directories: an address the start-up takes from its
+        # holder belonged to a request that is not handed over (c14frame.py checks that an answered live owner keeps
+        # the address it was told in histories without unreplayable requests; this is the statement with them)
+        after = st.get('vips_after') or {}
+        for ip, n in sorted((st.get('vips_before') or {}).items()):
+            if after.get(ip) != n and n in st['expect']:
+                out.append(('svcframe:start-up-freed-the-address-of-a-replayable-request',
+                             '%s: vips/%s -> %s before, %r after, although %s resolves and has a valid request.yml'
+                             % (where, ip, n, after.get(ip), n)))
         want = [n for n in st['order'] if n in st['expect']]
         if sorted(replayed) == sorted(want) and replayed != want:
             out.append(('svcframe:replay-order-differs-from-the-directory-listing', '%s: %r, listing %r' % (where, replayed, want)))
@@ -453,7 +465,8 @@ def _distribution(cases, obs):
          'boots_with_links_removed_by_the_framework': 0, 'boots_with_listed_entries_not_replayable': 0,
          'deletes_delivered': 0,
          'creates_from_events': 0, 'get_none': 0, 'get_reply': 0, 'get_error': 0, 'invalid_payload_puts': 0,
-         'steps_while_stopped': 0, 'histories_incomplete': 0}
+         'steps_while_stopped': 0, 'histories_incomplete': 0, 'addresses_kept_over_a_start': 0,
+         'addresses_freed_at_a_start': 0}
     for c, o in zip(cases, obs):
         if len(o['steps']) != len(c['ops']):
             d['histories_incomplete'] += 1
@@ -470,6 +483,9 @@ def _distribution(cases, obs):
                 d['requests_replayed'] += kinds[:kinds.index('sync')].count('create') if 'sync' in kinds else 0
                 after = kinds[kinds.index('sync') + 1:] if 'sync' in kinds else []
                 d['boots_with_links_removed_by_the_framework'] += 'delete' in after
+                va = st.get('vips_after') or {}
+                for ip, nm in (st.get('vips_before') or {}).items():
+                    d['addresses_kept_over_a_start' if va.get(ip) == nm else 'addresses_freed_at_a_start'] += 1
                 d['boots_with_listed_entries_not_replayable'] += len(st['order'] or []) > n
             else:
                 if k == 'stop':
